@@ -29,7 +29,7 @@ func init() {
 			m.newAssertChecker(s).Run("R-ASSERT", fns)
 			m.RunPrefixKW(s, "R-PREFIXKW")
 			m.RunBlockStart(s, "R-BLOCKSTART") // an empty loop body is an empty body: its @else is not merged into it
-			m.RunBodyEntry(s, "R-BODYENTRY") // an empty body (of a slot, an insert, a branch, a loop) does not take the enclosing closer
+			m.RunBodyEntry(s, "R-BODYENTRY")   // an empty body (of a slot, an insert, a branch, a loop) does not take the enclosing closer
 			m.RunTruthUsers(s, "R-TRUTH")
 			m.RunEvalErr(s, "R-EVALERR") // a failing condition / body / sub-expression fails the render instead of being treated as a value
 			s.RequireMin("R-LOOP", 5, "the two loop statements by cases, block statement clauses")
